@@ -32,7 +32,7 @@ theorem markWant_want_iff (w : List Nat) (s : Slot) :
 /-- A property of single slots that survives setting `want` survives the whole class loop. -/
 theorem runClasses_forall (Q : Slot → Prop) (hQ : ∀ s, Q s → Q { s with want := true })
     (env : Env) (sorter : Class → List Slot → List Slot) :
-    ∀ (cs : List Class) (b : BState), RunOK env sorter cs b → (∀ s ∈ b.slots, Q s) →
+    ∀ (cs : List Class) (b : BState), RunPerm env sorter cs b → (∀ s ∈ b.slots, Q s) →
       ∀ s ∈ (runClasses env sorter cs b).slots, Q s := by
   intro cs
   induction cs with
@@ -40,7 +40,7 @@ theorem runClasses_forall (Q : Slot → Prop) (hQ : ∀ s, Q s → Q { s with wa
   | cons c cs ih =>
     intro b hok h
     unfold runClasses
-    unfold RunOK at hok
+    unfold RunPerm at hok
     by_cases hd : env.desired c = 0
     · simp only [hd, if_true] at hok ⊢
       exact ih b hok h
@@ -49,7 +49,7 @@ theorem runClasses_forall (Q : Slot → Prop) (hQ : ∀ s, Q s → Q { s with wa
       intro s hs
       rw [classIter_slots] at hs
       obtain ⟨s0, hs0, rfl⟩ := List.mem_map.1 hs
-      have hq : Q s0 := h s0 (hok.1.1.mem_iff.1 hs0)
+      have hq : Q s0 := h s0 (hok.1.mem_iff.1 hs0)
       rcases markWant_cases _ s0 with e | e <;> rw [e]
       · exact hq
       · exact hQ _ hq
@@ -91,7 +91,7 @@ theorem mem_changes {env : Env} {classes : List Class} {sorter : Class → List 
 theorem final_forall (Q : Slot → Prop) (hQ : ∀ s, Q s → Q { s with want := true })
     {env : Env} {classes : List Class} {sorter : Class → List Slot → List Slot}
     {mounts : List Mount} {reps : List Replica}
-    (hok : BalanceOK env classes sorter mounts reps)
+    (hok : BalancePerm env classes sorter mounts reps)
     (h0 : ∀ s ∈ initSlots mounts reps, Q s) :
     ∀ s ∈ finalWant (balanceBlock env classes sorter mounts reps).final, Q s := by
   apply finalWant_forall Q hQ
@@ -304,18 +304,18 @@ theorem classIter_coreRel (env : Env) (c : Class) {sorted : List Slot} {b : BSta
   exact (coreRel_map_markWant _ _).trans (coreRel_of_perm h)
 
 theorem runClasses_coreRel (env : Env) (sorter : Class → List Slot → List Slot) :
-    ∀ (cs : List Class) (b : BState), RunOK env sorter cs b → CoreRel (runClasses env sorter cs b).slots b.slots := by
+    ∀ (cs : List Class) (b : BState), RunPerm env sorter cs b → CoreRel (runClasses env sorter cs b).slots b.slots := by
   intro cs
   induction cs with
   | nil => intro b _; exact CoreRel.refl _
   | cons c cs ih =>
     intro b hok
     unfold runClasses
-    unfold RunOK at hok
+    unfold RunPerm at hok
     by_cases hd : env.desired c = 0
     · simp only [hd, if_true] at hok ⊢; exact ih b hok
     · simp only [hd, if_false] at hok ⊢
-      exact (ih _ hok.2).trans (classIter_coreRel env c hok.1.1)
+      exact (ih _ hok.2).trans (classIter_coreRel env c hok.1)
 
 theorem coreRel_mnt_perm {l₁ l₂ : List Slot} (h : CoreRel l₁ l₂) : (l₁.map (·.mnt)).Perm (l₂.map (·.mnt)) := by
   have := h.map Prod.fst
@@ -365,7 +365,7 @@ theorem safeCount_lt (c : Class) (d : Nat) : ∀ (l : List Slot) (seen : List De
 /-- if the code's test fires for some class of the loop — on whatever reordering of the slots it
 is evaluated — the flag is set at the end -/
 theorem runClasses_underrep (env : Env) (sorter : Class → List Slot → List Slot) (c' : Class) :
-    ∀ (cs : List Class) (b : BState), RunOK env sorter cs b → c' ∈ cs → env.desired c' ≠ 0 →
+    ∀ (cs : List Class) (b : BState), RunPerm env sorter cs b → c' ∈ cs → env.desired c' ≠ 0 →
       (∀ l, CoreRel l b.slots → safeCount c' (env.desired c') l [] 0 < env.desired c') →
       (runClasses env sorter cs b).underrep = true := by
   intro cs
@@ -374,7 +374,7 @@ theorem runClasses_underrep (env : Env) (sorter : Class → List Slot → List S
   | cons c cs ih =>
     intro b hok hm hd' hlt
     unfold runClasses
-    unfold RunOK at hok
+    unfold RunPerm at hok
     by_cases hd : env.desired c = 0
     · simp only [hd, if_true] at hok ⊢
       rcases List.mem_cons.1 hm with rfl | hm'
@@ -387,10 +387,10 @@ theorem runClasses_underrep (env : Env) (sorter : Class → List Slot → List S
         simp only
         split
         · rfl
-        · have := hlt (sorter c' b.slots) (coreRel_of_perm hok.1.1)
+        · have := hlt (sorter c' b.slots) (coreRel_of_perm hok.1)
           simpa using this
       · apply ih _ hok.2 hm' hd'
         intro l hl
-        exact hlt l (hl.trans (classIter_coreRel env c hok.1.1))
+        exact hlt l (hl.trans (classIter_coreRel env c hok.1))
 
 end ArvVerif.C05
